@@ -136,6 +136,60 @@ theorem relative_semantics (a : Arch) (tbl : Labels) (cur : Nat) (l : String) (t
       | exact hT
       | (split <;> simp_all)
 
+/-- `LD Rd, (Rp)` loads the byte the pointer register addresses. -/
+theorem ld_ind_semantics (a : Arch) (tbl : Labels) (cur : Nat) (r p : Reg) (bs : List Nat)
+    (hr : general r = true) (hp : general p = true)
+    (he : Ref.encode tbl cur (.ldMem r (.reg p)) = some bs) (hm : Holds a 0 bs) :
+    Isa.step a = some { (a.setReg r.num (a.rd (a.reg p.num))) with pc := a.pc + 2 } := by
+  cases r <;> simp [general] at hr <;> cases p <;> simp [general] at hp <;>
+    simp [Ref.encode, Ref.twoOperand, Ref.extraBytes, Ref.ofSrc, Ref.ofDst, Ref.Operand.field, Reg.num] at he <;>
+    subst he <;> simp only [Holds] at hm <;> obtain ⟨h0, h1, -⟩ := hm <;>
+    simp at h0 h1 <;>
+    (have e0 : Isa.step a = Isa.exec { a with pc := a.pc + 1 } (a.rd a.pc).toNat := rfl) <;>
+    rw [e0, h0] <;> simp only [Arch.rd] at h1 <;>
+    simp [Isa.exec, Isa.operand, Arch.reg, Arch.setReg, Arch.rd, add12, h1, Isa.second, Reg.num]
+
+/-- `ST (Rp), Rs` stores the register where the pointer register points. -/
+theorem st_ind_semantics (a : Arch) (tbl : Labels) (cur : Nat) (r p : Reg) (bs : List Nat)
+    (hr : general r = true) (hp : general p = true)
+    (he : Ref.encode tbl cur (.st (.reg p) r) = some bs) (hm : Holds a 0 bs) :
+    Isa.step a = some { (a.wr (a.reg p.num) (a.reg r.num)) with pc := a.pc + 2 } := by
+  cases r <;> simp [general] at hr <;> cases p <;> simp [general] at hp <;>
+    simp [Ref.encode, Ref.twoOperand, Ref.extraBytes, Ref.ofSrc, Ref.ofDst, Ref.Operand.field, Reg.num] at he <;>
+    subst he <;> simp only [Holds] at hm <;> obtain ⟨h0, h1, -⟩ := hm <;>
+    simp at h0 h1 <;>
+    (have e0 : Isa.step a = Isa.exec { a with pc := a.pc + 1 } (a.rd a.pc).toNat := rfl) <;>
+    rw [e0, h0] <;> simp only [Arch.rd] at h1 <;>
+    simp [Isa.exec, Isa.operand, Arch.reg, Arch.setReg, Arch.rd, Arch.wr, add12, h1, Isa.second, Reg.num]
+
+/-- `MOV Rd, (Rp+)` loads the byte the pointer addresses and then increments the pointer. -/
+theorem mov_postinc_semantics (a : Arch) (tbl : Labels) (cur : Nat) (r p : Reg) (bs : List Nat)
+    (hr : general r = true) (hp : general p = true)
+    (he : Ref.encode tbl cur (.mov (.reg r) (.di p)) = some bs) (hm : Holds a 0 bs) :
+    Isa.step a = some { ((a.setReg p.num (a.reg p.num + 1)).setReg r.num (a.rd (a.reg p.num))) with pc := a.pc + 2 } := by
+  cases r <;> simp [general] at hr <;> cases p <;> simp [general] at hp <;>
+    simp [Ref.encode, Ref.twoOperand, Ref.extraBytes, Ref.ofSrc, Ref.ofDst, Ref.Operand.field, Reg.num] at he <;>
+    subst he <;> simp only [Holds] at hm <;> obtain ⟨h0, h1, -⟩ := hm <;>
+    simp at h0 h1 <;>
+    (have e0 : Isa.step a = Isa.exec { a with pc := a.pc + 1 } (a.rd a.pc).toNat := rfl) <;>
+    rw [e0, h0] <;> simp only [Arch.rd] at h1 <;>
+    simp [Isa.exec, Isa.operand, Arch.reg, Arch.setReg, Arch.rd, add12, h1, Isa.second, Reg.num]
+
+/-- `CMP Rd, const` sets the flags of `Rd - const` (carry = borrow) and changes nothing else. -/
+theorem cmp_const_semantics (a : Arch) (tbl : Labels) (cur : Nat) (r : Reg) (v : Nat) (bs : List Nat)
+    (hr : general r = true)
+    (he : Ref.encode tbl cur (.cmp (.reg r) (.const (.num v))) = some bs) (hm : Holds a 0 bs) :
+    Isa.step a = some { a with
+      pc := a.pc + 3
+      fr := flagsOf a.fr (decide ((a.reg r.num).toNat < (BitVec.ofNat 8 v).toNat)) (a.reg r.num - BitVec.ofNat 8 v) } := by
+  cases r <;> simp [general] at hr <;>
+    simp [Ref.encode, Ref.twoOperand, Ref.extraBytes, Ref.ofSrc, Ref.ofDst, Ref.value, Ref.Operand.field, Reg.num] at he <;>
+    subst he <;> simp only [Holds] at hm <;> obtain ⟨h0, h1, h2, -⟩ := hm <;>
+    simp at h0 h1 h2 <;>
+    (have e0 : Isa.step a = Isa.exec { a with pc := a.pc + 1 } 251 := by unfold Isa.step; rw [h0]; rfl) <;>
+    rw [e0] <;> simp only [Arch.rd] at h1 h2 <;>
+    simp [Isa.exec, Isa.operand, Arch.reg, Arch.setReg, Arch.rd, add12, add21, h1, h2, Isa.second, Reg.num]
+
 /-- Non-vacuity: a machine whose RAM starts with `LD R1, 0x2A` (FB 2A 11) meets `Holds`. -/
 example : Ref.encode [] 0 (.ldConst .r1 (.num 42)) = some [0xFB, 42, 0x11] := by decide
 
